@@ -610,6 +610,12 @@ def families(tier):
     fams.append(Groups('lines/terminating-decimal-directions', [line_group(p, d) for p in tpts for d in tdirs], chunk=3))
     fams.append(Groups('halflines/terminating-decimal-directions', [halfline_group(p, d) for p in tpts for d in tdirs], chunk=3))
     fams.append(Groups('planes/terminating-decimal-normals', [plane_group(p, d) for p in tpts for d in tdirs], chunk=3))
+    # objects through the origin (offset / moment exactly zero: a canonical form that takes its sign from the offset has
+    # nothing to go by), in the identity pose
+    odirs = list(dirs) + tdirs[:4]
+    O = (0, 0, 0)
+    fams.append(Groups('lines/through-origin', [line_group(O, d) for d in odirs] + [line_group(X.scal(-2, d), d) for d in odirs[::3]], chunk=3))
+    fams.append(Groups('planes/through-origin', [plane_group(O, d) for d in odirs], chunk=3))
     base = [('Point', (1, 2, 3), 'float'), ('Line/PV', (0, 0, 0), (1, 1, 0), 'float'), ('Plane/PN', (0, 0, 1), (0, 1, 1), 'float'),
             ('Polygon', A.POLYGONS['square'], 'float')]
     tet = A.polyhedron('tetrahedron')
